@@ -22,6 +22,8 @@ func VerifFix(arg string) {
 	nw := vParam(arg, "w", 2)
 	sb := vParam(arg, "sb", 100)
 	mp := vParam(arg, "mp", 2*sb)
+	vCPUGridScale = vParam(arg, "g", 2)
+	defer func() { vCPUGridScale = 2 }()
 	ctx := context.Background()
 	p, kv := vPlugin(sb, -1)
 
@@ -53,7 +55,7 @@ func VerifFix(arg string) {
 	for k := 0; k < nw; k++ {
 		pfx := fmt.Sprintf("w%d_", k)
 		w := &types.WorkloadResource{CPUMap: types.CPUMap{}}
-		w.CPURequest = vGrid(pfx+"cpu", 2, 0, 4*8)
+		w.CPURequest = vGrid(pfx+"cpu", vCPUGridScale, 0, 8<<vCPUGridScale)
 		w.CPULimit = w.CPURequest
 		sumCPU += w.CPURequest
 		for i := 0; i < n; i++ {
